@@ -244,7 +244,7 @@ def _work(job: tuple[int, str, bool, int, bool]) -> tuple[int, str, str, float, 
         else:
             backend = "z3+cvc5"
     if r in ("unknown", "error"):
-        r2, why2 = _run_cvc5(smt, timeout_ms)
+        r2, why2 = _run_cvc5(smt, min(timeout_ms, 20000))
         if r2 in ("sat", "unsat"):
             r, backend, why = r2, "cvc5", ""
             if r2 == "sat" and _cvc5_sat_check(smt, timeout_ms) == "invalid":
@@ -274,6 +274,12 @@ def _work(job: tuple[int, str, bool, int, bool]) -> tuple[int, str, str, float, 
             r3, model3, why3 = _run_z3(smt, timeout_ms)
             if r3 in ("sat", "unsat"):
                 r, model, why = r3, model3, ""
+            elif timeout_ms > 20000:
+                r5, why5 = _run_cvc5(smt, timeout_ms)  # last resort: cvc5 with the full budget (its `sat` would need the re-check above: only `unsat` is taken)
+                if r5 == "unsat":
+                    r, backend, why = "unsat", "cvc5", ""
+                else:
+                    why = f"z3:{why3} cvc5:{why5 or r5}"
             else:
                 why = f"z3:{why3} cvc5:{why2 or r2}"
         else:
